@@ -4,6 +4,26 @@ without executing anything — for which of the 256 byte values a given event is
 from model import strip, const_value, walk
 
 
+TABLES = {}        # name of a global -> its evaluated constant value ("cvtab" of the facts), filled by the caller
+
+
+def _table_of(b):
+    b = strip(b)
+    if not isinstance(b, dict):
+        return None
+    if b.get('k') == 'var' and b.get('vk') in ('global', 'static'):
+        t = TABLES.get(b['n'])
+        return t if isinstance(t, list) else None
+    if b.get('k') == 'mem':
+        base = strip(b.get('b'))
+        if isinstance(base, dict) and base.get('k') == 'var' and base.get('vk') in ('global', 'static'):
+            t = TABLES.get(base['n'])
+            if isinstance(t, dict):
+                v = t.get(b['n'])
+                return v if isinstance(v, list) else None
+    return None
+
+
 def eval_int(d, env):
     """Integer value of descriptor d under env {var name: value}, or None."""
     d0 = d
@@ -25,6 +45,13 @@ def eval_int(d, env):
     k = d.get('k')
     if k == 'var':
         return env.get(d['n'])
+    if k == 'idx':
+        # a read of a constant table (const array / member array of a constexpr object) at a computable index
+        tab = _table_of(d.get('b'))
+        i = eval_int(d.get('i'), env)
+        if tab is not None and i is not None and 0 <= i < len(tab) and isinstance(tab[i], (int, bool)):
+            return int(tab[i])
+        return None
     if k == 'un':
         v = eval_int(d['e'], env)
         if v is None:
